@@ -10,6 +10,11 @@
      LFactory k      sudsobject.Factory.cache[k]                           (sudsobject.py)
      LMrNodes o / LMrCatalog o   MultiRef.nodes / MultiRef.catalog of the MultiRef object o
      LProxy c        HttpTransport.proxy of the transport of client c (transport/http.py: send)
+     LClassAttr k a  a cell owned by a class or a module of suds: class attribute a of class k,
+                     an entry of a class-level dictionary or list, a module global (other than
+                     sudsobject.Factory.cache, which is LFactory)
+     LBinding b a    a cell of a Binding object b (an attribute, or an entry of a container it holds):
+                     bindings are shared by all methods of a service and by all threads
      LOther a b      anything else (never touched by the model; observed writes
                      the harness cannot classify land here)
    A MultiRef object is identified by a number: objects created by a call
@@ -24,6 +29,8 @@ Inductive cloc :=
 | LResolved (e : N) (nb : bool) | LFactory (k : N)
 | LMrNodes (o : N) | LMrCatalog (o : N)
 | LProxy (c : N)
+| LClassAttr (k a : N)
+| LBinding (b a : N)
 | LOther (a b : N).
 
 Definition cloc_eqb (a b : cloc) : bool :=
@@ -32,7 +39,8 @@ Definition cloc_eqb (a b : cloc) : bool :=
   | LFactory x, LFactory y | LMrNodes x, LMrNodes y | LMrCatalog x, LMrCatalog y
   | LProxy x, LProxy y => x =? y
   | LResolved x p, LResolved y q => (x =? y) && Bool.eqb p q
-  | LOther x p, LOther y q => (x =? y) && (p =? q)
+  | LOther x p, LOther y q | LClassAttr x p, LClassAttr y q | LBinding x p, LBinding y q =>
+      (x =? y) && (p =? q)
   | _, _ => false
   end.
 
@@ -235,6 +243,13 @@ Definition is_memo_loc (l : cloc) : bool :=
 Definition is_cache_loc (l : cloc) : bool :=
   match l with LResolved _ _ | LFactory _ => true | _ => false end.
 
+(* who owns a cell: a class or module of suds (state shared by EVERY client in
+   the process), a Binding (shared by every call through a service) *)
+Definition class_owned (l : cloc) : bool :=
+  match l with LFactory _ | LClassAttr _ _ => true | _ => false end.
+Definition binding_owned (l : cloc) : bool :=
+  match l with LBinding _ _ => true | _ => false end.
+
 Definition call_wf (k : call) : bool := forallb is_cache_loc (c_in k ++ c_out k).
 
 (* ---- when do threads satisfy the footprint condition?  Stated on the
@@ -335,23 +350,52 @@ Definition fp_spec_ok (x : fp_case) : bool :=
    thread's solo result, 2 something else, 3 exception, 4 blocked *)
 Record outcome := mkout { o_req_own : bool; o_res : N }.
 
+(* A schedule is given by LABELS: a segment (i, (pc, sub)) means "thread i runs
+   until it has completed pc instructions of its program and is at
+   sub-position sub of the next one" -- the harness computes the label of the
+   point where the real thread was suspended from that thread's stack (which
+   statement of MultiRef.process / build_catalog / replace_references /
+   TypedContent.resolve / Factory.subclass / HttpTransport.send / last_sent /
+   last_received it is executing).  Segments are listed in the order in which
+   the real threads ran. *)
 Record sched_case := mksc {
   sc_calls : list call;
-  sc_plan : list (nat * N);     (* segments: (thread, per-mille of its program) *)
+  sc_plan : list (nat * (nat * nat));
   sc_obs : list outcome
 }.
 
 (* number of steps of a call that misses every memo cell *)
 Definition prog_len (k : call) : nat := length (call_code k) + 2 * length (c_in k ++ c_out k) + 1.
 
-Fixpoint plan_sched (calls : list call) (plan : list (nat * N)) : list nat :=
+Definition pos_of (total : nat) (st : cstate) : nat * nat := ((total - length (code st))%nat, sub st).
+Definition pos_reached (tgt cur : nat * nat) : bool :=
+  (fst tgt <? fst cur)%nat || ((fst tgt =? fst cur)%nat && (snd tgt <=? snd cur)%nat).
+
+Definition cstepi (mv : cloc -> N) := stepi cloc cval cstate cloc_eqb (cnext mv).
+
+Fixpoint run_to (mv : cloc -> N) (fuel i total : nat) (tgt : nat * nat)
+                (c : cloc -> cval) (ps : list cstate) : (cloc -> cval) * list cstate :=
+  match fuel with
+  | O => (c, ps)
+  | S f =>
+      match nth_error ps i with
+      | None => (c, ps)
+      | Some st =>
+          if pos_reached tgt (pos_of total st) then (c, ps)
+          else run_to mv f i total tgt (fst (cstepi mv i (c, ps))) (snd (cstepi mv i (c, ps)))
+      end
+  end.
+
+Fixpoint run_plan (mv : cloc -> N) (calls : list call) (plan : list (nat * (nat * nat)))
+                  (c : (cloc -> cval) * list cstate) : (cloc -> cval) * list cstate :=
   match plan with
-  | [] => []
-  | (i, pm) :: rest =>
-      match nth_error calls i with
-      | Some k => repeat i (N.to_nat (pm * N.of_nat (prog_len k) / 1000))
-      | None => []
-      end ++ plan_sched calls rest
+  | [] => c
+  | (i, tgt) :: rest =>
+      run_plan mv calls rest
+        (match nth_error calls i with
+         | Some k => run_to mv (prog_len k) i (length (call_code k)) tgt (fst c) (snd c)
+         | None => c
+         end)
   end.
 
 Fixpoint completion (calls : list call) (i : nat) : list nat :=
@@ -380,8 +424,9 @@ Definition classify (mv : cloc -> N) (calls : list call) (i : nat) (st : cstate)
 
 Definition model_outcomes (x : sched_case) : list outcome :=
   let calls := sc_calls x in
-  let final := cexec default_mv (plan_sched calls (sc_plan x) ++ completion calls 0)
-                     (store0, map (fun k => init_state (TCall k)) calls) in
+  let final := cexec default_mv (completion calls 0)
+                     (run_plan default_mv calls (sc_plan x)
+                               (store0, map (fun k => init_state (TCall k)) calls)) in
   (fix go (i : nat) (sts : list cstate) :=
      match sts with [] => [] | st :: r => classify default_mv calls i st :: go (S i) r end)
   0%nat (snd final).
